@@ -221,6 +221,22 @@ def check_scratch(ctx):
                   f"get_current_registers does not look at {cname}.{attr}, which can hold a Register: a register used only inside an array operand "
                   f"can be picked as scratch register for a literal and be overwritten by the inserted `set`", repo.loc(m, gcr),
                   sample={"holder": f"{cname}.{attr}", "isinstance": cname in isinst, "attr_read": attr in attrs_read})
+    # the value that is recorded must be the one that was type-tested as a Register
+    flows = []
+    for c in added:
+        if not c.args:
+            continue
+        a = c.args[0]
+        inner = a.args[0] if isinstance(a, ast.Call) and dotted(a.func) == "str" and a.args else a
+        tested = []
+        for t, pol in G.enclosing_tests(gcr, c):
+            if pol and isinstance(t, ast.Call) and dotted(t.func) == "isinstance" and len(t.args) == 2 and "Register" in A.norm(t.args[1]):
+                tested.append(A.norm(t.args[0]))
+        flows.append((A.norm(inner), tested))
+    ok_flow = bool(flows) and all(v in tested for v, tested in flows)
+    ctx.check("C03.S", "get_current_registers:records-the-value-it-tested", ok_flow,
+              f"get_current_registers records {[f[0] for f in flows]} under isinstance tests on {[f[1] for f in flows]}: the recorded value is not the one tested to be a Register, "
+              f"so registers reached through array operands are skipped (or non-registers recorded)", repo.loc(m, gcr), sample={"recorded_vs_tested": flows})
     # element representation: what is added vs what is tested
     add_repr = None
     for c in added:
@@ -393,6 +409,7 @@ SEEDS = [
     dict(id="c03-scratch-ignores-slices", file=T, expect="C03.S", construct="ArraySlice.stop", old="                values = [op.start, op.stop]", new="                values = [op.start]"),
     dict(id="c03-scratch-ignores-entry", file=T, expect="C03.S", construct="ArrayEntry.index",
          old="            if isinstance(op, ArrayEntry):\n                values = [op.index]\n            elif isinstance(op, ArraySlice):", new="            if isinstance(op, ArraySlice):"),
+    dict(id="c03-tests-outer-operand", file=T, expect="C03.S", construct="records-the-value-it-tested", old="                if isinstance(value, Register):\n                    current_registers.add(str(value))", new="                if isinstance(op, Register):\n                    current_registers.add(str(value))"),
     dict(id="c03-scratch-tmp-not-excluded", file=T, expect="C03.S", construct="excludes-temporaries",
          old="            if str(register) not in current_registers and register not in tmp_registers:", new="            if str(register) not in current_registers:"),
     dict(id="c03-scratch-repr-mismatch", file=T, expect="C03.S", construct="",
